@@ -263,3 +263,19 @@ case("c12-password-drops", "break", ["C12"], [(PW, "                    if commo
 case("c12-ideographic-not-space", "break", ["C12", "C15"], [("precis-profiles/build.rs", 'UcdTableGen::new("Zs", "space_separator")', 'UcdTableGen::new("Zl", "space_separator")')], "table no longer Zs", expect_key=["L5"])
 case("c12-keep-while-let", "keep", ["C12", "C01"], [(NK, "            for c in s[pos..].chars() {\n                if !common::is_space_separator(c) {\n                    res.push(c);", "            let mut it = s[pos..].chars();\n            while let Some(c) = it.next() {\n                if !common::is_space_separator(c) {\n                    res.push(c);")], "for → while let")
 case("c12-keep-pop-ends-with", "keep", ["C12"], [(NK, "            if let Some(c) = res.pop() {\n                if c != common::SPACE {\n                    res.push(c);\n                }\n            }", "            if res.ends_with(common::SPACE) {\n                res.pop();\n            }")], "trailing space removed with ends_with + pop")
+
+# ------------------------------------------------------------------ C10
+CM = PROF + "common.rs"
+case("c10-revert-d4", "break", ["C10"], [(CM, "    match s.find(|c: char| c.to_lowercase().ne(std::iter::once(c))) {", "    match s.find(char::is_uppercase) {")], "reverts the D4 repair", expect_key=["trigger-misses"])
+case("c10-ascii-trigger", "break", ["C10"], [(CM, "    match s.find(|c: char| c.to_lowercase().ne(std::iter::once(c))) {", "    match s.find(|c: char| c.is_ascii_uppercase()) {")], "non-ASCII capitals before the first ASCII capital are kept")
+case("c10-first-char-only", "break", ["C10"], [(CM, "                    c.to_lowercase().for_each(|x| res.push(x));", "                    if let Some(x) = c.to_lowercase().next() {\n                        res.push(x);\n                    }")], "only the first character of a multi-character lowercase mapping is kept (U+0130)", expect_key=["discipline|map"])
+case("c10-until-next-lower", "break", ["C10"], [(CM, "                if c.is_lowercase() {\n                    res.push(c);\n                } else {", "                if c.is_lowercase() {\n                    res.push(c);\n                    done = true;\n                } else if done {\n                    res.push(c);\n                } else {"), (CM, "            for c in s[pos..].chars() {\n                if c.is_lowercase() {", "            let mut done = false;\n            for c in s[pos..].chars() {\n                if c.is_lowercase() {")], "mapping stops at the first lowercase character", expect_key=["stateless"])
+case("c10-keep-flat-map", "keep", ["C10"], [(CM, "                if c.is_lowercase() {\n                    res.push(c);\n                } else {\n                    c.to_lowercase().for_each(|x| res.push(x));\n                }", "                c.to_lowercase().for_each(|x| res.push(x));")], "no is_lowercase shortcut: same function")
+
+# ------------------------------------------------------------------ C11
+case("c11-compat-too", "break", ["C11", "C15"], [(TOOLS + "generators/ucd_generator.rs", "                || *tag == UnicodeDataDecompositionTag::Narrow", "                || *tag == UnicodeDataDecompositionTag::Narrow\n                || *tag == UnicodeDataDecompositionTag::Super")], "superscripts mapped as well", expect_key=["L5"])
+case("c11-trigger-range", "break", ["C11"], [(U, "    match s.find(has_width_mapping) {", "    match s.find(|c: char| c >= '\\u{ff00}') {")], "halfwidth/fullwidth forms below U+FF00 (U+3000) never trigger")
+case("c11-map-first-only", "break", ["C11"], [(U, "            for c in s[pos..].chars() {\n                res.push(match get_decomposition_mapping(c as u32) {", "            let mut first = true;\n            for c in s[pos..].chars() {\n                if !first {\n                    res.push(c);\n                    continue;\n                }\n                first = false;\n                res.push(match get_decomposition_mapping(c as u32) {")], "only the first wide character is mapped", expect_key=["stateless"])
+case("c11-prefix-off-by-one", "break", ["C11", "C01"], [(U, "            let mut res = String::from(&s[..pos]);\n            res.reserve(s.len() - res.len());\n            for c in s[pos..].chars() {\n                res.push(match get_decomposition_mapping", "            let mut res = String::from(&s[..pos]);\n            res.reserve(s.len() - res.len());\n            for c in s[pos + 1..].chars() {\n                res.push(match get_decomposition_mapping")], "the first wide character is skipped (and the slice can split a character)")
+case("c11-wrong-row", "break", ["C11"], [(U, "        .map(|x| WIDE_NARROW_MAPPING[x].1)", "        .map(|x| WIDE_NARROW_MAPPING[x].1 + 0)\n        .map(|m| if m == 0x20 { 0x3000 } else { m })")], "U+3000 no longer mapped to U+0020")
+case("c11-keep-match-lookup", "keep", ["C11", "C01"], [(U, "    WIDE_NARROW_MAPPING\n        .binary_search_by(|cps| cps.0.partial_cmp(&cp).unwrap())\n        .map(|x| WIDE_NARROW_MAPPING[x].1)\n        .ok()", "    match WIDE_NARROW_MAPPING.binary_search_by(|cps| cps.0.partial_cmp(&cp).unwrap()) {\n        Ok(x) => Some(WIDE_NARROW_MAPPING[x].1),\n        Err(_) => None,\n    }")], "map/ok → match")
